@@ -68,10 +68,10 @@ def l1_l3(prog, rep):
                     a0, a1 = sh(norm(e.arg(0))), sh(norm(e.arg(1)))
                     if a0 == "stream->pblk" and norm(e.arg(1))[0] == "v":       # the nonce parameter
                         ok = f.name == "crypto_aesctr_init2"
-                    elif a0 == "(stream->pblk+8)" and a1 == "(stream->bytectr>>4)":
+                    elif a0 == "&stream->pblk[8]" and a1 == "(stream->bytectr>>4)":
                         # only when the low byte wrapped
                         ok = any(op == "==" and sh(L) == "stream->pblk[15]" and R == ("c", 0) for cond, truth in f.edge_conds(e) for op, L, R, _, _ in cond_atoms(cond, truth))
-                elif kind == "call" and e.callee == "memcpy" and sh(norm(e.arg(0))) == "(stream->pblk+8)" and norm(e.arg(2)) == ("c", 8):
+                elif kind == "call" and e.callee == "memcpy" and sh(norm(e.arg(0))) == "&stream->pblk[8]" and norm(e.arg(2)) == ("c", 8):
                     src = norm(e.arg(1))
                     encs = [c for c in f.calls("be64enc") if norm(c.arg(0)) == src]
                     ok = len(encs) == 1 and norm(encs[0].arg(1))[0] == "v"
@@ -130,8 +130,10 @@ def l1_l3(prog, rep):
         ok = len(src) >= 1 and len(encs) == 1 and norm(src[0].kid(1).strip().arg(0)) == norm(encs[0].arg(0)) and ni.dominates(encs[0], src[0])
     enc = [c for c in ni.calls("crypto_aes_encrypt_block_aesni_m128i")]
     ok = ok and len(enc) == 1 and sh(norm(enc[0].arg(1))) == "stream->key"
-    wb = [c for c in ni.calls("memcpy") if sh(norm(c.arg(0))) == "(stream->pblk+8)"]
+    wb = [c for c in ni.calls("memcpy") if sh(norm(c.arg(0))) == "&stream->pblk[8]"]
     okwb = len(wb) == 1 and wb[0].block.id not in ni.reach_from(wb[0].block.id) and enc and wb[0].block.id in ni.reach_from(enc[0].block.id)
+    # unconditionally: no path through the routine avoids the write-back (a later call may take the portable path and continue from pblk)
+    okwb = okwb and not ni.reach_avoiding(ni.entry, ni.exit, wb[0].block.id)
     rep.check(okwb, "L1-writers", "AES-NI: the last counter used is written back into pblk[8..15] after the loop (the portable path continues from it)", ni.loc, "",
               function=ni.name, construct="aesni-writeback")
     rep.check(ok, "L1-writers", "AES-NI: block = unpacklo(nonce from pblk[0..7], be64(counter)), encrypted with the stream's key", ni.loc, "", function=ni.name, construct="aesni-block")
@@ -213,7 +215,8 @@ def run(tier):
         "Decided: the counter block is written only by the agreed writers and has the layout nonce_be64 || blockindex_be64 in both the "
         "portable and the AES-NI implementation (L1); in-place operation is sound because each byte range is read before it is written "
         "(L2); re-initialisation resets position, nonce and the low-byte idiom (L3); the keystream position bookkeeping -- offset "
-        "bytectr % 16, partial/whole/tail structure, all cursors moving by the bytes used -- is the same in both siblings (L4). "
+        "bytectr % 16, partial/whole/tail structure, all cursors moving by the bytes used -- is the same in both siblings (L4); "
+        "the accelerated stream code is selected only through the key layer's validated selection (G1/G2, shared with C03). "
         "NOT decided: equality of the block cipher with FIPS-197 (OpenSSL / AES-NI numerics), the carry of the counter beyond its low "
         "byte as a value property, partition independence as an equality of byte strings.",
         trusted=["OpenSSL AES_encrypt", "_mm_* intrinsics semantics"])
@@ -235,6 +238,13 @@ def run(tier):
     if ok:
         l1_l3(prog, rep)
         l2_l4(prog, rep)
+    # which implementation runs: the AES-NI stream code may be selected only when the key layer has validated and selected
+    # AES-NI too (both work on the same expanded-key object); dispatch-safety rules shared with C03
+    from . import c03
+    dprog = ir.Program(c03.PORTABLE + list(c03.ACCEL), cdb.HOST)
+    rep.add_stats(dprog)
+    c03.g1_g2(dprog, rep, {up: dprog.unit(up).enums for up in c03.PORTABLE})
     rep.require_min("L1-writers", 6)
     rep.require_min("L4-position", 5)
+    rep.require_min("G2-select", 4)
     return rep
